@@ -151,10 +151,28 @@ def comparisons(f):
     for bi, si, st in f.stmts():
         if st["k"] == "assign" and st["rv"]["k"] == "binop" and st["rv"]["op"] in ("Eq", "Ne") and not st["place"]["p"]:
             out.append(((bi, si), st["place"]["l"], st["rv"]["op"].lower(), [st["rv"]["l"], st["rv"]["r"]], st["span"]))
+    IDENT = re.compile(r"(BigInt|Value)::is_identical$")
     for bi, t in f.calls():
         c = t.get("callee") or ""
         if c in ("std::cmp::PartialEq::eq", "std::cmp::PartialEq::ne") and not t["dest"]["p"]:
             out.append(((bi, 10 ** 6), t["dest"]["l"], c.rsplit("::", 1)[-1], t["args"], t["span"]))
+        elif IDENT.search(t.get("resolved") or c) and not t["dest"]["p"] and len(t["args"]) == 2:
+            # value-and-size equality of the repo's own types
+            out.append(((bi, 10 ** 6), t["dest"]["l"], "eq", t["args"], t["span"]))
+        elif re.search(r"Option::<T>::(map_or|is_some_and)$", c) and not t["dest"]["p"] and t["args"]:
+            # `new.map_or(false, |v| v.is_identical(&kept))`: equal exactly when present and equal to the captured value
+            from mir import closure_of_origin
+            o = f.origin_op(t["args"][-1])
+            cid = closure_of_origin(o)
+            g = f.prog.fn(cid) if cid else None
+            if g is None or (c.endswith("map_or") and const_int(t["args"][1]) != 0):
+                continue
+            inner = [t2 for _, t2 in g.calls() if IDENT.search(t2.get("resolved") or t2.get("callee") or "") or (t2.get("callee") or "") == "std::cmp::PartialEq::eq"]
+            if len(inner) != 1 or inner[0]["dest"]["l"] != 0:
+                continue
+            ag = peel(o)
+            if ag and ag[0] == "agg" and len(ag[1]["ops"]) == 1:
+                out.append(((bi, 10 ** 6), t["dest"]["l"], "eq", [t["args"][0], ag[1]["ops"][0]], t["span"]))
     return out
 
 
@@ -274,6 +292,26 @@ def fix2(run):
                 run.check(whole, R, key + "|whole-value", f.loc(span),
                           "%s: the stability comparison is over the whole `%s` (%s)" % (fid, fld, fty),
                           "%s: the stability comparison on `%s` (declared %s) compares %s: a change the projection does not show (a boolean flipping, a string or size changing) would not force another pass" % (fid, fld, fty, tys))
+        # BigInt's `==` (and Value's, through it) ignores the declared size: a kept value whose size reaches the output (an encoding, a
+        # constant) has to be compared with the value-and-size equality, or a size that keeps changing is taken for stable
+        if re.search(r"(^|::)(BigInt|Value)$", _strip_wrappers(fty or "")):
+            tcall = f.blocks[cp[0]]["term"]
+            aware = False
+            if tcall["k"] == "call":
+                cc = tcall.get("resolved") or tcall.get("callee") or ""
+                if re.search(r"(BigInt|Value)::is_identical$", cc):
+                    aware = True
+                elif re.search(r"Option::<T>::(map_or|is_some_and)$", cc):
+                    from mir import closure_of_origin
+                    g_ = f.prog.fn(closure_of_origin(f.origin_op(tcall["args"][-1])) or "")
+                    aware = g_ is not None and any(re.search(r"(BigInt|Value)::is_identical$", t2.get("resolved") or t2.get("callee") or "") for _, t2 in g_.calls())
+            blind_ok = spec.get("size_blind_ok", {})
+            if aware:
+                run.ok(R, key + "|size-aware", f.loc(span), "%s: the stability comparison on `%s` sees a change of the declared size" % (fid, fld))
+            elif fid in blind_ok:
+                run.exception(R, key + "|size-aware", f.loc(span), "%s compares `%s` with `==` (size-blind): %s" % (fid, fld, blind_ok[fid]))
+            else:
+                run.violation(R, key + "|size-aware", f.loc(span), "%s compares the kept `%s` with `==`, which ignores the declared size of integers: a value whose size changes from pass to pass while its number stays the same is taken for stable, and the output then depends on the iteration budget" % (fid, fld))
         if run.debug_fix2 if hasattr(run, "debug_fix2") else False:
             from rules_sym import deep
             for (cp2, cd2, ck2, ops2, sp2) in comparisons(f):
@@ -665,6 +703,19 @@ def fix4(run):
     R = "FIX4"
     prog = run.prog
     spec = run.table("fix")
+    # the budget the outer driver is given is the option's value, unchanged
+    from rules_sym import deep as _deep
+    nb = 0
+    for g in prog.real_fns():
+        for bi, t in g.calls():
+            if (t.get("resolved") or t.get("callee") or "") != "asm::resolver::resolve_iteratively":
+                continue
+            nb += 1
+            us = [_deep(g, a, 6) for a, ty in zip(t["args"], t.get("arg_tys") or []) if ty == "usize"]
+            okb = len(us) == 1 and re.fullmatch(r"(upvar:\w+|P\d+)(\.\w+)*\.max_iterations", us[0]) is not None
+            run.check(okb, R, "%s|budget-passed|%s" % (R, g.raw.get("root") or g.id), g.loc(t["span"]), "the resolver is given `max_iterations` of the options, unchanged",
+                      "%s hands the resolver the budget `%s`, not the option's max_iterations unchanged: the number of passes run (and reported) would not be bounded by what the user asked for" % (g.id, us))
+    run.floor(R, "calls of the outer driver", nb, 1)
     for d in spec["drivers"]:
         f = prog.fn(d["fn"])
         if f is None:
